@@ -19,6 +19,10 @@ OPT_NOTE = ("optimiser model (coq/model/Optimiser.v) replayed bit-for-bit agains
             "MCOptimiser::optimise_state on scripted and real states")
 
 PROPS = {
+    "C14": dict(props_file="props/C14.v", engines=[("geom", dict(quick=[("C14", 4000)], thorough=[("C14", 200000)]))],
+                design="DESIGN.md section 4 C14"),
+    "C15": dict(props_file="props/C15.v", engines=[("geom", dict(quick=[("C15", 4000)], thorough=[("C15", 200000)]))],
+                design="DESIGN.md section 4 C15"),
     "C17": dict(props_file="props/C17.v", engines=[("parse", dict(grammar_quick=1500, grammar_thorough=20000,
                                                                    arbitrary_quick=3000, arbitrary_thorough=200000))],
                 design="DESIGN.md section 4 C17"),
@@ -315,6 +319,8 @@ ENGINES["tables"] = tables_engine
 
 import eng_parse
 ENGINES["parse"] = eng_parse.run
+import eng_geom
+ENGINES["geom"] = eng_geom.run
 
 
 def run_engines(prop, conf, tier, seed, broken_gate=False):
@@ -362,4 +368,4 @@ def run_replay(prop, conf, path):
     return total
 
 
-REPLAYERS = {"parse": eng_parse.replay}
+REPLAYERS = {"parse": eng_parse.replay, "geom": eng_geom.replay}
